@@ -219,6 +219,25 @@ class Evaluator:
                 outs.append((g, kind, t))
         return outs
 
+    def summarize_closure(self, ct, args, depth=0, guard=()):
+        """Applies a closure term to argument terms: [(guard, kind, term)]."""
+        if ct[0] != "closure":
+            raise Unsupported("not a closure: " + show(ct))
+        body = self.U.body.get(ct[1])
+        if body is None:
+            raise Unsupported("closure body not found: " + ct[1])
+        env = {vid: t for vid, t in ct[2]}
+        params = body["params"][1:]
+        if len(params) != len(args):
+            raise Unsupported("closure arity mismatch", body["span"])
+        for p, a in zip(params, args):
+            if "pat" in p:
+                self.bind(p["pat"], a, env, body)
+        outs = []
+        for (g, kind, t, _e) in self.ev(body["value"], State(guard, env), depth, body):
+            outs.append((g, "val" if kind in ("val", "ret") else kind, t))
+        return outs
+
     # -- patterns ----------------------------------------------------------
     def bind(self, pat, term, env, body):
         k = pat["k"]
@@ -721,6 +740,10 @@ class Evaluator:
                 env2 = dict(env)
                 env2[vid] = ("app", "iter_rest", None, (args[0],))
                 yield (g, "val", ("app", "iter_next", None, (args[0],)), env2)
+                return
+            if not mut_places:
+                # a temporary: nothing observes the advanced iterator afterwards
+                yield (g, "val", ("app", "iter_next", None, (args[0],)), env)
                 return
             raise Unsupported("Iterator::next on a non-variable place", sp)
         if mut_places:
